@@ -1,0 +1,92 @@
+//go:build verif
+
+package fzf
+
+import (
+	"reflect"
+
+	"github.com/junegunn/fzf/src/tui"
+)
+
+// Verification hooks (build tag verif) for --color parsing: thin exported views of
+// tui.ColorTheme values and of the unexported parseTheme. No logic beyond copying fields.
+
+// VerifColorSlot is one ColorAttr field of a theme; the attribute bits are reported one by one
+// because their numeric values depend on the renderer build tag.
+type VerifColorSlot struct {
+	Field         string
+	Color         int
+	Bold          bool
+	Dim           bool
+	Italic        bool
+	Underline     bool
+	Blink         bool
+	Reverse       bool
+	StrikeThrough bool
+	Regular       bool
+	BoldForce     bool
+	Other         int // any remaining bits
+}
+
+// VerifThemeView is a theme as a list of its ColorAttr fields in declaration order.
+type VerifThemeView struct {
+	Nil     bool
+	Colored bool
+	Slots   []VerifColorSlot
+}
+
+// VerifViewTheme copies the fields of a theme.
+func VerifViewTheme(t *tui.ColorTheme) VerifThemeView {
+	if t == nil {
+		return VerifThemeView{Nil: true}
+	}
+	v := VerifThemeView{Colored: t.Colored}
+	rv := reflect.ValueOf(*t)
+	rt := rv.Type()
+	for i := 0; i < rv.NumField(); i++ {
+		ca, ok := rv.Field(i).Interface().(tui.ColorAttr)
+		if !ok {
+			continue
+		}
+		a := ca.Attr
+		known := tui.Bold | tui.Dim | tui.Italic | tui.Underline | tui.Blink | tui.Reverse | tui.StrikeThrough | tui.AttrRegular | tui.BoldForce
+		v.Slots = append(v.Slots, VerifColorSlot{
+			Field: rt.Field(i).Name, Color: int(ca.Color),
+			Bold: a&tui.Bold != 0, Dim: a&tui.Dim != 0, Italic: a&tui.Italic != 0, Underline: a&tui.Underline != 0,
+			Blink: a&tui.Blink != 0, Reverse: a&tui.Reverse != 0, StrikeThrough: a&tui.StrikeThrough != 0,
+			Regular: a&tui.AttrRegular != 0, BoldForce: a&tui.BoldForce != 0, Other: int(a &^ known)})
+	}
+	return v
+}
+
+func verifBaseTheme(name string) *tui.ColorTheme {
+	switch name {
+	case "dark":
+		return dupeTheme(tui.Dark256)
+	case "light":
+		return dupeTheme(tui.Light256)
+	case "16":
+		return dupeTheme(tui.Default16)
+	case "bw":
+		return tui.NoColorTheme()
+	}
+	return tui.EmptyTheme()
+}
+
+// VerifBaseTheme returns a copy of one of the built-in themes: dark, light, 16, bw, empty.
+func VerifBaseTheme(name string) VerifThemeView { return VerifViewTheme(verifBaseTheme(name)) }
+
+// VerifParseTheme runs parseTheme for each spec in turn, starting from the named built-in theme.
+func VerifParseTheme(base string, specs []string) (VerifThemeView, error) {
+	theme := verifBaseTheme(base)
+	for _, s := range specs {
+		var err error
+		if theme, err = parseTheme(theme, s); err != nil {
+			return VerifThemeView{}, err
+		}
+	}
+	return VerifViewTheme(theme), nil
+}
+
+// VerifOptionsTheme is the theme of a parsed Options value.
+func VerifOptionsTheme(opts *Options) VerifThemeView { return VerifViewTheme(opts.Theme) }
